@@ -349,3 +349,81 @@ Proof.
   destruct H as [fd [bd [fl [bl [F1 [F2 [F3 [F4 [C1 [C2 [L1 L2]]]]]]]]]]]. cbn in F1, F2, F3, F4. subst. auto.
 Qed.
 End Lemmas.
+
+(* ================= freshness of defined predicates, and observation F12 ================= *)
+Definition defined_pred (f : formula) : option pred :=
+  match f with
+  | FQ QForall _ (FBin CIff (FAtomic (AAtom q ts)) _) => Some (mkpred q (List.length ts))
+  | _ => None
+  end.
+
+(* the letter of C13: the predicate defined by an entry occurs nowhere in the task ([seen] starts
+   as the taken predicates) nor in any earlier outline entry (lemma or definition) *)
+Fixpoint strictly_fresh (m : placeholders) (l : specification) (seen : list pred) : Prop :=
+  match l with
+  | [] => True
+  | a0 :: l' =>
+      let a := rp_annot m a0 in
+      (match an_role a with
+       | RDefinition => forall p, defined_pred (an_formula a) = Some p -> ~ In p seen
+       | _ => True
+       end)
+      /\ strictly_fresh m l' (seen ++ predicates (an_formula a))
+  end.
+
+(* the complement of the known class F12: no definition defines a predicate that occurs in an
+   EARLIER LEMMA ([lp] collects the predicates of the lemmas seen so far) *)
+Fixpoint F12_free (m : placeholders) (l : specification) (lp : list pred) : Prop :=
+  match l with
+  | [] => True
+  | a0 :: l' =>
+      let a := rp_annot m a0 in
+      match an_role a with
+      | RDefinition => (forall p, defined_pred (an_formula a) = Some p -> ~ In p lp) /\ F12_free m l' lp
+      | _ => F12_free m l' (lp ++ predicates (an_formula a))
+      end
+  end.
+
+Theorem accepted_strictly_fresh m : forall l taken o0 ws o ws' seen lp,
+  from_specification_loop l taken m o0 ws = Ok (o, ws') ->
+  F12_free m l lp -> (forall q, In q seen -> In q taken \/ In q lp) ->
+  strictly_fresh m l seen.
+Proof.
+  induction l as [|anf0 l IH]; intros taken o0 ws o ws' seen lp; cbn [from_specification_loop strictly_fresh F12_free]; [auto|].
+  set (anf := rp_annot m anf0).
+  assert (Hlemma : forall closed,
+    match general_lemma_try_from closed with
+    | Err e => Err e
+    | Panic => Panic
+    | Ok g =>
+        from_specification_loop l taken m
+          match an_dir anf with
+          | DUniversal => mkoutline (forward_lemmas o0 ++ [g]) (backward_lemmas o0 ++ [g]) (forward_definitions o0) (backward_definitions o0)
+          | DForward => mkoutline (forward_lemmas o0 ++ [g]) (backward_lemmas o0) (forward_definitions o0) (backward_definitions o0)
+          | DBackward => mkoutline (forward_lemmas o0) (backward_lemmas o0 ++ [g]) (forward_definitions o0) (backward_definitions o0)
+          end ws
+    end = Ok (o, ws') ->
+    F12_free m l (lp ++ predicates (an_formula anf)) -> (forall q, In q seen -> In q taken \/ In q lp) ->
+    True /\ strictly_fresh m l (seen ++ predicates (an_formula anf))).
+  { intros closed. destruct (general_lemma_try_from closed) as [g|e|]; try discriminate.
+    intros Hrec Hfree Hseen. split; [exact I|].
+    eapply IH; [exact Hrec|exact Hfree|].
+    intros q Hq. apply in_app_iff in Hq. destruct Hq as [Hq|Hq].
+    - destruct (Hseen q Hq); [left; assumption|right; apply in_app_iff; auto].
+    - right; apply in_app_iff; auto. }
+  destruct (an_role anf) eqn:Erole; try discriminate.
+  - apply Hlemma.
+  - destruct (definition (an_formula anf) taken) as [[p w]|e|] eqn:Ed; try discriminate.
+    intros Hrec [Hfree Hfree'] Hseen.
+    destruct (definition_shape _ _ _ _ Ed) as [vs [q [ts [rhs [tv [Ef [Ep [_ [_ [_ [Hfresh _]]]]]]]]]]].
+    split.
+    + intros p' Hp'. rewrite Ef in Hp'. cbn in Hp'. injection Hp' as <-. rewrite <- Ep.
+      intros Hin. destruct (Hseen p Hin) as [Ht|Hl]; [exact (Hfresh Ht)|]. apply (Hfree p); [|exact Hl].
+      rewrite Ef. cbn. rewrite Ep. reflexivity.
+    + eapply IH; [exact Hrec|exact Hfree'|].
+      intros r Hr. apply in_app_iff in Hr. destruct Hr as [Hr|Hr].
+      * destruct (Hseen r Hr) as [Ht|Hl]; [left; apply (in_iset_insert pred_dec); auto|right; exact Hl].
+      * left. apply (in_iset_insert pred_dec).
+        destruct (definition_predicates _ _ _ _ Ed r Hr) as [->|Ht]; auto.
+  - apply Hlemma.
+Qed.
